@@ -10,10 +10,13 @@
 //	L  listener: p plain TCP, s traffic-shaped, t transparent TLS (no CONNECT; T must be n),
 //	   x transparent TLS wrapped by a traffic-shaping listener (no CONNECT; T must be n)
 //	T  what the client does inside the tunnel: t TLS handshake, p plain HTTP, n no tunnel
-//	req = <form>[H]
+//	req = <form>[H][I|M|V]
 //	  form o origin-form, Host: example.com | a absolute http://other.test/.. | s absolute https://other.test/..
 //	       n origin-form, HTTP/1.0, no Host header (closes the connection)
 //	  H    the request modifier hijacks the session on this request and writes a marker
+//	  I / M / V  after looking at the request the modifier calls the public session mutators
+//	       Session.MarkInsecure() / Session.MarkSecure() / Session.Set (and every later modifier
+//	       call checks Session.Get returns the last value set: a miss is reported as session 98)
 //
 // OUT: one token per request, 0 = the CONNECT (when there is one), then 1..N:
 //
@@ -80,6 +83,7 @@ func originHandler(kind string) http.Handler {
 type reqTok struct {
 	form   byte
 	hijack bool
+	mut    byte // 0, 'I', 'M', 'V'
 }
 
 // what the request modifier found in req.TLS
@@ -96,6 +100,7 @@ type rec struct {
 	q     map[int]string // i -> scheme,host,secure,tls,sess
 	hk    map[int]string
 	ntoks map[int]reqTok
+	lastV int // index of the last request whose modifier called Session.Set
 	pref  string
 }
 
@@ -154,6 +159,15 @@ func (e *rec) ModifyRequest(req *http.Request) error {
 		sid = e.idx(ctx.Session().ID())
 		e.mu.Unlock()
 	}
+	if ctx != nil && ctx.Session() != nil {
+		e.mu.Lock()
+		if e.lastV > 0 {
+			if v, ok := ctx.Session().Get("verif"); !ok || v != e.lastV {
+				sid = 98
+			}
+		}
+		e.mu.Unlock()
+	}
 	e.mu.Lock()
 	if _, dup := e.q[i]; dup {
 		e.q[i] += "!dup"
@@ -165,6 +179,19 @@ func (e *rec) ModifyRequest(req *http.Request) error {
 	}
 	tok, ok := e.ntoks[i]
 	e.mu.Unlock()
+	if ok && ctx != nil && ctx.Session() != nil {
+		switch tok.mut {
+		case 'I':
+			ctx.Session().MarkInsecure()
+		case 'M':
+			ctx.Session().MarkSecure()
+		case 'V':
+			ctx.Session().Set("verif", i)
+			e.mu.Lock()
+			e.lastV = i
+			e.mu.Unlock()
+		}
+	}
 	if ok && tok.hijack && ctx != nil {
 		conn, _, err := ctx.Session().Hijack()
 		if err == nil {
@@ -207,10 +234,21 @@ func runCase(in []string) (out []string) {
 	}
 	var toks []reqTok
 	for _, t := range in[2:] {
-		if len(t) < 1 || len(t) > 2 || !strings.ContainsRune("oasn", rune(t[0])) || (len(t) == 2 && t[1] != 'H') {
+		if len(t) < 1 || len(t) > 3 || !strings.ContainsRune("oasn", rune(t[0])) {
 			return []string{"BADCASE"}
 		}
-		toks = append(toks, reqTok{t[0], len(t) == 2})
+		rt := reqTok{form: t[0]}
+		for _, c := range t[1:] {
+			switch {
+			case c == 'H' && !rt.hijack:
+				rt.hijack = true
+			case strings.ContainsRune("IMV", c) && rt.mut == 0:
+				rt.mut = byte(c)
+			default:
+				return []string{"BADCASE"}
+			}
+		}
+		toks = append(toks, rt)
 	}
 	pref := fmt.Sprintf("c%d-", atomic.AddInt64(&caseNo, 1))
 	e := &rec{tls: map[int]tlsSeen{}, ids: map[string]int{}, q: map[int]string{}, hk: map[int]string{}, ntoks: map[int]reqTok{}, pref: pref}
@@ -414,8 +452,11 @@ func main() {
 		cfg.Count(fmt.Sprintf("requests=%d", len(in)-2))
 		for _, t := range in[2:] {
 			cfg.Count("form=" + t[:1])
-			if len(t) == 2 {
+			if strings.Contains(t, "H") {
 				cfg.Count("hijack=1")
+			}
+			if strings.ContainsAny(t, "IMV") {
+				cfg.Count("session_mutator=" + strings.Trim(t, "oasnH"))
 			}
 		}
 	}
@@ -439,6 +480,7 @@ func main() {
 	if cfg.Thorough() {
 		L = 4
 	}
+	rot := 0
 	var seqs [][]string
 	var gen func(cur []string)
 	gen = func(cur []string) {
@@ -462,6 +504,27 @@ func main() {
 			if len(s) < L {
 				emit("exhN", append(append([]string{m[0], m[1]}, s...), "n"))
 			}
+			// public session mutators called by the modifier at a rotating index
+			if len(s) > 0 {
+				rot++
+				muts := "IV"
+				if m[1] != "Tp" {
+					muts = "IVM" // MarkSecure by a modifier is only meaningful on a decrypted connection
+				}
+				for _, mu := range muts {
+					x := append([]string(nil), s...)
+					x[rot%len(x)] += string(mu)
+					emit("exhM", append([]string{m[0], m[1]}, x...))
+				}
+				if len(s) >= 2 {
+					x := append([]string(nil), s...)
+					x[0] += "V"
+					for k := 1; k < len(x); k++ {
+						x[k] += "I"
+					}
+					emit("exhM", append([]string{m[0], m[1]}, x...))
+				}
+			}
 		}
 	}
 	// 2. longer random sequences
@@ -475,11 +538,22 @@ func main() {
 		in := []string{m[0], m[1]}
 		ln := r.Range(1, maxLen)
 		for i := 0; i < ln; i++ {
-			in = append(in, forms[r.Intn(3)])
+			t := forms[r.Intn(3)]
+			switch r.Intn(8) {
+			case 0:
+				t += "I"
+			case 1:
+				t += "V"
+			case 2:
+				if m[1] != "Tp" {
+					t += "M"
+				}
+			}
+			in = append(in, t)
 		}
 		switch r.Intn(4) {
 		case 0:
-			in[len(in)-1] += "H"
+			in[len(in)-1] = in[len(in)-1][:1] + "H"
 		case 1:
 			in = append(in, "n")
 		}
